@@ -113,6 +113,15 @@ class iterable_loader(DataStreamProcessor):
         dp.descriptor.setdefault('resources', []).append(self.res.descriptor)
         return dp
 
+    def rows(self):
+        try:
+            yield from self.res.iter(keyed=True)
+        except Exception:
+            if self.exc is not None:
+                # the iterable's own exception rather than the reader's wrapper around it
+                raise self.exc
+            raise
+
     def process_resources(self, resources):
         yield from super(iterable_loader, self).process_resources(resources)
-        yield self.res.iter(keyed=True)
+        yield self.rows()
